@@ -37,7 +37,7 @@ func (w *world) verifierCalls() (n int, last verifyCall, on *stubClient) {
 // VerifC02Recv: RecvPacket accepts only if the client registered for the packet's source chain verified, at the
 // message's proof height and with the message's proof, the hash of exactly the decoded packet under its own triple.
 func VerifC02Recv() {
-	w := newWorld(2)
+	w := newWorld(2 + rt.Tier())
 	msg := &types.MsgRecvPacket{Packet: rt.Bytes("packetBytes"), ProofCommitment: rt.Bytes("proof"),
 		ProofHeight: clienttypes.Height{RevisionNumber: rt.U64("rev"), RevisionHeight: rt.U64("height")}, Signer: rt.Str("signer")}
 	var p types.Packet
@@ -70,7 +70,7 @@ func VerifC02Recv() {
 // VerifC02Ack: AcknowledgePacket accepts only if this chain still holds the commitment of exactly the decoded packet
 // and the destination chain's client verified the hash of exactly the acknowledgement bytes of the message.
 func VerifC02Ack() {
-	w := newWorld(2)
+	w := newWorld(2 + rt.Tier())
 	msg := &types.MsgAcknowledgement{Packet: rt.Bytes("packetBytes"), Acknowledgement: rt.Bytes("ackBytes"), ProofAcked: rt.Bytes("proof"),
 		ProofHeight: clienttypes.Height{RevisionNumber: rt.U64("rev"), RevisionHeight: rt.U64("height")}, Signer: rt.Str("signer")}
 	var p types.Packet
